@@ -25,6 +25,11 @@ def pool(rng, quick):
     rec = exprs.edge_modules(rng, 2)
     for m in (rec[-2], rec[-3]) + tuple(exprs.graph_modules(rng)[:2]):
         p.append({'kind': 'recipe', 'module': m, 'opt': True, 'fmt': 'binary'})
+    # two imported notations that share one definition: which one prints is decided by the order of the notation list
+    D = pi2v.IMP(pi2v.MV(0), pi2v.IMP(pi2v.MV(1), pi2v.MV(0)))
+    app_ = lambda a, b: pi2v.NINST(D, [(0, a), (1, b)])
+    sub = {'lib': False, 'notations': [['nA', 2, D, 'A({0}, {1})'], ['nB', 2, D, 'B({0}; {1})'], ['nC', 2, D, 'C<{0}|{1}>']], 'axioms': [app_(pi2v.SYM(0), pi2v.SYM(1))]}
+    p.append({'kind': 'recipe', 'module': {'lib': False, 'imports': [sub], 'axioms': [app_(pi2v.SYM(1), pi2v.SYM(0))], 'proofs': [['axiom', 0]]}, 'opt': False, 'fmt': 'pretty'})
     # Metamath databases whose target has two or three metavariables
     k = 0
     while k < (2 if quick else 5):
